@@ -162,6 +162,20 @@ pub fn shard(tier: &str, range: &str) -> i32 {
 }
 
 pub fn replay(doc: &Value) -> i32 {
+  if doc["replay"]["layer"] == "wire" {
+    let q: Vec<u8> = serde_json::from_value(doc["replay"]["sequence"].clone()).expect("sequence");
+    println!("wire-level sequence {q:?} (0 = good DATA, s = odd variant s-1)");
+    return match wire_case(&q) {
+      Ok(()) => {
+        println!("no violation on this sequence");
+        0
+      }
+      Err((k, m)) => {
+        println!("VIOLATION-DETAIL key={k}: {m}");
+        1
+      }
+    };
+  }
   let idx = doc["replay"]["case_index"].as_u64().expect("case_index") as usize;
   let tier = doc["replay"]["tier"].as_str().unwrap_or("quick").to_string();
   let al = alphabet();
@@ -201,6 +215,66 @@ pub fn one(tier: &str, idx: usize) -> i32 {
   0
 }
 
+/// one wire-level sequence (symbol 0 = good DATA, s > 0 = odd variant s-1)
+fn wire_case(q: &[u8]) -> Result<(), (String, String)> {
+  use rustdds::verif::{
+    sim_reader::{wport, RCfg, SimReader},
+    wire::Sub,
+  };
+  let r = std::panic::catch_unwind(|| -> Result<(), (String, String)> {
+    let mut sim = SimReader::new(RCfg { reliable: true, history: 0, nwriters: 1, frag_size: 1024 });
+    for (j, sym) in q.iter().enumerate() {
+      let sn = j as i64 + 1;
+      let b = if *sym == 0 { sim.data_bytes(0, sn, 1, 0, true) } else { sim.odd_bytes(0, sn, *sym - 1) };
+      sim.inject(&b);
+    }
+    let n = q.len() as i64;
+    let _ = sim.sent();
+    let hb = sim.hb_bytes(0, 1, n, 1, false);
+    sim.inject(&hb);
+    let mut base = None;
+    let mut requested: Vec<i64> = vec![];
+    for (port, p) in sim.sent() {
+      if port == wport(0) {
+        for sub in p.subs {
+          if let Sub::AckNack { base: b, set, .. } = sub {
+            base = Some(b);
+            requested = set;
+          }
+        }
+      }
+    }
+    // the application drains the reader; an unintelligible change may be reported as an error, once each
+    let mut handed: Vec<i64> = vec![];
+    for _ in 0..q.len() + 3 {
+      match sim.take(usize::MAX) {
+        Ok(v) => {
+          if v.is_empty() {
+            break;
+          }
+          handed.extend(v.iter().filter(|t| t.is_value && t.k == 1).map(|t| t.sn));
+        }
+        Err(_) => {}
+      }
+    }
+    let good: Vec<i64> = q.iter().enumerate().filter(|(_, s)| **s == 0).map(|(j, _)| j as i64 + 1).collect();
+    if handed != good {
+      let first_odd = q.iter().position(|s| *s > 0).map(|p| q[p] - 1).unwrap_or(0);
+      return Err((format!("C09:wire:not-delivered:variant{first_odd}"), format!("good samples {good:?} arrived in order, the reader handed over {handed:?}")));
+    }
+    if base != Some(n + 1) || !requested.is_empty() {
+      let stuck = base.unwrap_or(0);
+      let v = if stuck >= 1 && stuck <= n { q[(stuck - 1) as usize] as i64 - 1 } else { -1 };
+      return Err((format!("C09:wire:stuck:variant{v}"), format!("after DATA 1..{n} and HEARTBEAT(1,{n}) the reader answered ACKNACK base {base:?} requesting {requested:?}: it still waits for a change that has arrived")));
+    }
+    Ok(())
+  });
+  match r {
+    Ok(x) => x,
+    Err(_) => Err(("C09:wire:panic".into(), format!("panic: {}", crate::engine::take_last_panic().unwrap_or_default()))),
+  }
+}
+
 /// Wire level: the same question one stage earlier, where a DATA submessage becomes a cache change.  All
 /// in-order sequences over {good DATA, eight kinds of DATA the Reader cannot turn into an ordinary sample}
 /// from one writer into a real reliable Reader; then a HEARTBEAT.  Whatever the Reader makes of an odd one,
@@ -225,61 +299,7 @@ fn wire_level(rep: &mut Report, maxl: usize) {
       }
     }
   }
-  let res = crate::engine::par_map(seqs.len(), 16, |i| {
-    let q = &seqs[i];
-    let r = std::panic::catch_unwind(|| -> Result<(), (String, String)> {
-      let mut sim = SimReader::new(RCfg { reliable: true, history: 0, nwriters: 1, frag_size: 1024 });
-      for (j, sym) in q.iter().enumerate() {
-        let sn = j as i64 + 1;
-        let b = if *sym == 0 { sim.data_bytes(0, sn, 1, 0, true) } else { sim.odd_bytes(0, sn, *sym - 1) };
-        sim.inject(&b);
-      }
-      let n = q.len() as i64;
-      let _ = sim.sent();
-      let hb = sim.hb_bytes(0, 1, n, 1, false);
-      sim.inject(&hb);
-      let mut base = None;
-      let mut requested: Vec<i64> = vec![];
-      for (port, p) in sim.sent() {
-        if port == wport(0) {
-          for sub in p.subs {
-            if let Sub::AckNack { base: b, set, .. } = sub {
-              base = Some(b);
-              requested = set;
-            }
-          }
-        }
-      }
-      // the application drains the reader; an unintelligible change may be reported as an error, once each
-      let mut handed: Vec<i64> = vec![];
-      for _ in 0..q.len() + 3 {
-        match sim.take(usize::MAX) {
-          Ok(v) => {
-            if v.is_empty() {
-              break;
-            }
-            handed.extend(v.iter().filter(|t| t.is_value && t.k == 1).map(|t| t.sn));
-          }
-          Err(_) => {}
-        }
-      }
-      let good: Vec<i64> = q.iter().enumerate().filter(|(_, s)| **s == 0).map(|(j, _)| j as i64 + 1).collect();
-      if handed != good {
-        let first_odd = q.iter().position(|s| *s > 0).map(|p| q[p] - 1).unwrap_or(0);
-        return Err((format!("C09:wire:not-delivered:variant{first_odd}"), format!("good samples {good:?} arrived in order, the reader handed over {handed:?}")));
-      }
-      if base != Some(n + 1) || !requested.is_empty() {
-        let stuck = base.unwrap_or(0);
-        let v = if stuck >= 1 && stuck <= n { q[(stuck - 1) as usize] as i64 - 1 } else { -1 };
-        return Err((format!("C09:wire:stuck:variant{v}"), format!("after DATA 1..{n} and HEARTBEAT(1,{n}) the reader answered ACKNACK base {base:?} requesting {requested:?}: it still waits for a change that has arrived")));
-      }
-      Ok(())
-    });
-    match r {
-      Ok(x) => x,
-      Err(_) => Err(("C09:wire:panic".into(), format!("panic: {}", crate::engine::take_last_panic().unwrap_or_default()))),
-    }
-  });
+  let res = crate::engine::par_map(seqs.len(), 16, |i| wire_case(&seqs[i]));
   let mut n = 0u64;
   for (i, r) in res.into_iter().enumerate() {
     n += 1;
